@@ -265,6 +265,38 @@ class Ctx:
             rc, out = sh(cmd, cwd=LEAN, timeout=3000)
         self.oblige("leanchecker:" + ",".join(modules), "audit", rc == 0, out[-800:])
 
+    def driver_guarded(self, lines, prop=None, chunk=40, chunk_timeout=25, line_timeout=8):
+        """like driver(), but a request the model cannot answer quickly (e.g. an entry list that blows up under
+        repeated composition) is answered `err model-timeout` instead of stalling the whole check; callers must
+        treat that reply as "not compared" (count it), never as agreement or disagreement."""
+        exe = driver_path(prop or self.prop)
+        if not os.path.exists(exe):
+            return ["err no-driver"] * len(lines)
+        out = []
+        for i in range(0, len(lines), chunk):
+            part = lines[i:i + chunk]
+            try:
+                p = subprocess.run([exe], input="\n".join(part) + "\n", stdout=subprocess.PIPE, stderr=subprocess.PIPE,
+                                   text=True, timeout=chunk_timeout)
+                rep = p.stdout.split("\n")
+                if rep and rep[-1] == "":
+                    rep.pop()
+                if len(rep) == len(part):
+                    out.extend(rep)
+                    continue
+            except subprocess.TimeoutExpired:
+                pass
+            for ln in part:   # slow or crashed chunk: one request at a time
+                try:
+                    p = subprocess.run([exe], input=ln + "\n", stdout=subprocess.PIPE, stderr=subprocess.PIPE, text=True,
+                                       timeout=line_timeout)
+                    r = p.stdout.split("\n")[0] if p.stdout else "err driver-crash"
+                except subprocess.TimeoutExpired:
+                    r = "err model-timeout"
+                    self.count("driver:model-timeout")
+                out.append(r)
+        return out
+
     def driver(self, lines, prop=None):
         """run protocol lines through the compiled Lean driver of this property (or of `prop`);
         returns the list of reply lines."""
